@@ -217,16 +217,16 @@ def alloc_ref(st, clsid=0):
 def new_list(st, length, elems):
     r = alloc_ref(st)
     length = named(st, z3.simplify(length), "len")
-    st.heap["llen"] = z3.Store(st.H("llen"), r, length)
-    st.heap["lel"] = z3.Store(st.H("lel"), r, elems)
+    st.heap["llen"] = named(st, z3.Store(st.H("llen"), r, length), "h_llen")
+    st.heap["lel"] = named(st, z3.Store(st.H("lel"), r, elems), "h_lel")
     return r
 
 
 def write_list(run, st, r, length, elems, line):
     check_frame(run, st, ["list"], r, line)
     length = named(st, z3.simplify(length), "len")
-    st.heap["llen"] = z3.Store(st.H("llen"), r, length)
-    st.heap["lel"] = z3.Store(st.H("lel"), r, elems)
+    st.heap["llen"] = named(st, z3.Store(st.H("llen"), r, length), "h_llen")
+    st.heap["lel"] = named(st, z3.Store(st.H("lel"), r, elems), "h_lel")
 
 
 def norm_index(st, r, i):
@@ -317,13 +317,13 @@ def s_mem(st, r):
 
 def new_set(st, mem):
     r = alloc_ref(st)
-    st.heap["smem"] = z3.Store(st.H("smem"), r, mem)
+    st.heap["smem"] = named(st, z3.Store(st.H("smem"), r, mem), "h_smem")
     return r
 
 
 def write_set(run, st, r, mem, line):
     check_frame(run, st, ["set"], r, line)
-    st.heap["smem"] = z3.Store(st.H("smem"), r, mem)
+    st.heap["smem"] = named(st, z3.Store(st.H("smem"), r, mem), "h_smem")
 
 
 EMPTY_MEM = z3.K(V, z3.BoolVal(False))
@@ -344,15 +344,15 @@ def d_val(st, r):
 
 def new_dict(st, has, val):
     r = alloc_ref(st)
-    st.heap["dhas"] = z3.Store(st.H("dhas"), r, has)
-    st.heap["dval"] = z3.Store(st.H("dval"), r, val)
+    st.heap["dhas"] = named(st, z3.Store(st.H("dhas"), r, has), "h_dhas")
+    st.heap["dval"] = named(st, z3.Store(st.H("dval"), r, val), "h_dval")
     return r
 
 
 def write_dict(run, st, r, has, val, line):
     check_frame(run, st, ["dict"], r, line)
-    st.heap["dhas"] = z3.Store(st.H("dhas"), r, has)
-    st.heap["dval"] = z3.Store(st.H("dval"), r, val)
+    st.heap["dhas"] = named(st, z3.Store(st.H("dhas"), r, named(st, has, "has")), "h_dhas")
+    st.heap["dval"] = named(st, z3.Store(st.H("dval"), r, named(st, val, "val")), "h_dval")
 
 
 # ------------------------------------------------------------------ fields
@@ -362,4 +362,4 @@ def f_get(st, name, r):
 
 def f_set(run, st, name, r, v, line):
     check_frame(run, st, ["f_" + name], r, line)
-    st.heap["f_" + name] = z3.Store(st.field(name), r, v)
+    st.heap["f_" + name] = named(st, z3.Store(st.field(name), r, v), "h_f_" + name)
